@@ -89,9 +89,10 @@ func seqnoInvalid(seqno, reference uint16) bool {
 	return false
 }
 
-// set sets a bit in the bitmap, shifting if necessary
+// set sets a bit in the bitmap, shifting if necessary.  The caller
+// invalidates the bitmap when the stream restarts.
 func (bitmap *bitmap) set(seqno uint16) {
-	if !bitmap.valid || seqnoInvalid(seqno, bitmap.first) {
+	if !bitmap.valid {
 		bitmap.first = seqno
 		bitmap.bitmap = 1
 		bitmap.valid = true
@@ -159,6 +160,8 @@ func (cache *Cache) Store(seqno uint16, timestamp uint32, keyframe bool, marker 
 	defer cache.mu.Unlock()
 
 	if !cache.lastValid || seqnoInvalid(seqno, cache.last) {
+		// restart: the bitmap must follow the same decision
+		cache.bitmap.valid = false
 		cache.last = seqno
 		cache.lastValid = true
 		cache.expected++
@@ -166,6 +169,12 @@ func (cache *Cache) Store(seqno uint16, timestamp uint32, keyframe bool, marker 
 	} else {
 		cmp := compare(cache.last, seqno)
 		if cmp < 0 {
+			if compare(cache.bitmap.first, seqno) > 0 {
+				// ahead of last but, modulo 2^16, behind
+				// the start of the bitmap: a jump of
+				// almost 2^15, nothing older is of interest
+				cache.bitmap.valid = false
+			}
 			cache.received++
 			cache.expected += uint32(seqno - cache.last)
 			if seqno < cache.last {
